@@ -2,7 +2,7 @@
 (* Scenario generator for C16: every history of BlocPlugin of length MaxLen, rendered as harness steps.   *)
 EXTENDS BlocPlugin, Json
 
-CtorText(m, sfx) == IF m = "csv" THEN "csv(\";\")" ELSE IF m = "utf8" THEN "utf8(\"ab\")" ELSE m \o "()"
+CtorText(m, form) == IF form = "default" THEN m \o "()" ELSE IF m = "csv" THEN "csv(\";\")" ELSE IF m = "utf8" THEN "utf8(\"ab\")" ELSE m \o "()"
 StepOf(h) ==
   CASE h.a = "unban" -> <<[op |-> "unban", m |-> h.m, act |-> h]>>
     [] h.a = "clear" -> <<[op |-> "clearperm", act |-> h]>>
@@ -13,12 +13,12 @@ StepOf(h) ==
     [] h.a = "decl" -> <<[op |-> "exec", ctx |-> h.c, text |-> "D" \o h.m \o ":" \o h.m \o ";", act |-> h], [op |-> "dump", ctx |-> h.c]>>
     [] h.a = "ctor" ->
          IF h.where = "top"
-         THEN <<[op |-> "exec", ctx |-> h.c, text |-> "O" \o h.m \o " = " \o CtorText(h.m, "") \o ";", act |-> h], [op |-> "dump", ctx |-> h.c]>>
-         ELSE <<[op |-> "exec", ctx |-> h.c, text |-> "function MK" \o h.m \o "() return object is begin return " \o CtorText(h.m, "") \o "; end;\nP" \o h.m \o " = MK" \o h.m \o "();", act |-> h],
+         THEN <<[op |-> "exec", ctx |-> h.c, text |-> "O" \o h.m \o " = " \o CtorText(h.m, h.form) \o ";", act |-> h], [op |-> "dump", ctx |-> h.c]>>
+         ELSE <<[op |-> "exec", ctx |-> h.c, text |-> "function MK" \o h.m \o "() return object is begin return " \o CtorText(h.m, h.form) \o "; end;\nP" \o h.m \o " = MK" \o h.m \o "();", act |-> h],
                 [op |-> "dump", ctx |-> h.c]>>
 RECURSIVE StepsOf(_)
 StepsOf(hs) == IF hs = <<>> THEN <<>> ELSE StepOf(Head(hs)) \o StepsOf(Tail(hs))
 Scenario == [prop |-> "C16", key |-> "hist",
              steps |-> <<[op |-> "new", ctx |-> 0, trusted |-> TRUE], [op |-> "new", ctx |-> 1, trusted |-> FALSE]>> \o StepsOf(hist)]
-Emit == Len(hist) < MaxLen \/ PrintT("@@S " \o ToJson(Scenario))
+Emit == Len(hist) < MaxLen + Len(Prefix) \/ PrintT("@@S " \o ToJson(Scenario))
 =============================================================================
